@@ -146,3 +146,20 @@ CHECKS["C04"] = {
         {"name": "lbsched", "pkg": "pkg/filters/proxy", "test": "TestVerifC04sched", "inject": [PROXYRIG, ["pkg/filters/proxy", "harness/C04/lbseq"]], "instrument": C04INSTR, "gomaxprocs": 1, "workers": 5},
     ],
 }
+
+CHECKS["C10"] = {
+    "level": "model_checking",
+    "technique": "exhaustive enumeration (choice-tree DFS) of per-attempt outcomes x cancellation instants x jitter extremes on the real ServerPool.handle in virtual time (testing/synctest)",
+    "level_text": "for 26 retry/timeout/stream configurations every vector of per-attempt backend outcomes (ok, 503, network error, hang, slow ok, slow 503), every cancellation instant of the menu "
+                  "and the extremes/middle of every jitter draw are executed on the real retry wrapper + pool; oracle: attempts <= maxAttempts, stop at first success, back-off lower bound on the virtual clock, "
+                  "no attempt after cancel, final status/result = last attempt's, stream bodies sent once, per-attempt timeout => 408/timeout; breaker around retry opens at the N-th failed CLIENT request and then answers 503 shortCircuited without calling the backend",
+    "level_note": "fnSendRequest stubbed; math/rand of pkg/resilience/retry.go replaced by vrand (5 representative answers per draw: 0,1,n/2,n-2,n-1); virtual time from synctest",
+    "rule": "choice tree: cancel instant, outcome of each attempt actually made, jitter representative; distinct_nontrivial = distinct (attempt count, final status, result) classes",
+    "explanation": "states = executions; each execution ran the real handle() to completion on the virtual clock",
+    "bounds": {"quick": "4 cancel instants", "thorough": "6 cancel instants"},
+    "assumptions": ["cancel instants chosen off the timer grid (+3ns) so cancel and timers never tie"],
+    "units": [
+        {"name": "proxy", "pkg": "pkg/filters/proxy", "test": "TestVerifC10", "inject": [PROXYRIG],
+         "instrument": [{"file": "pkg/resilience/retry.go", "imports": {"math/rand": "vrand"}}]},
+    ],
+}
